@@ -106,35 +106,56 @@ impl Bus {
         let idx = self.txs.len();
         let mut seen = bytes.clone();
         let mut collided = false;
-        // Overlap with earlier transmissions that are still running.
+        // Overlap with earlier transmissions that are still running (or, behind a transmitter
+        // with latency, have been handed over earlier but begin later).
+        let new_end = start + bytes.len() as u64 * CHAR;
         let lo = idx.saturating_sub(6);
         for j in (lo..idx).rev() {
             let (a_start, a_end) = (self.txs[j].start, self.txs[j].end());
-            if a_end > start {
+            if a_end > start && a_start < new_end {
                 collided = true;
                 self.collisions.push((j, idx));
                 self.txs[j].collided = true;
-                // characters of the earlier transmission that are not finished at `start`
-                let k = ((start.saturating_sub(a_start)) / CHAR) as usize;
-                if self.collision_garbles {
-                    for b in k..self.txs[j].seen.len() {
-                        let g = self.garble();
-                        self.txs[j].seen[b] ^= g;
+                if a_start <= start {
+                    // characters of the earlier transmission that are not finished at `start`
+                    let k = ((start - a_start) / CHAR) as usize;
+                    if self.collision_garbles {
+                        for b in k..self.txs[j].seen.len() {
+                            let g = self.garble();
+                            self.txs[j].seen[b] ^= g;
+                        }
+                    } else {
+                        let keep = k.min(self.txs[j].seen.len());
+                        self.txs[j].seen.truncate(keep);
+                    }
+                    // characters of the new transmission that overlap the earlier one
+                    let nb = (a_end - start).div_ceil(CHAR) as usize;
+                    if self.collision_garbles {
+                        for b in 0..nb.min(seen.len()) {
+                            let g = self.garble();
+                            seen[b] ^= g;
+                        }
+                    } else {
+                        // nothing of the new transmission is understood by anybody
+                        seen.clear();
                     }
                 } else {
-                    let keep = k.min(self.txs[j].seen.len());
-                    self.txs[j].seen.truncate(keep);
-                }
-                // characters of the new transmission that overlap the earlier one
-                let nb = (a_end - start).div_ceil(CHAR) as usize;
-                if self.collision_garbles {
-                    for b in 0..nb.min(seen.len()) {
-                        let g = self.garble();
-                        seen[b] ^= g;
+                    // the other one begins in the middle of the new transmission
+                    let k = ((a_start - start) / CHAR) as usize;
+                    let nb = (new_end - a_start).div_ceil(CHAR) as usize;
+                    if self.collision_garbles {
+                        for b in k.min(seen.len())..seen.len() {
+                            let g = self.garble();
+                            seen[b] ^= g;
+                        }
+                        for b in 0..nb.min(self.txs[j].seen.len()) {
+                            let g = self.garble();
+                            self.txs[j].seen[b] ^= g;
+                        }
+                    } else {
+                        seen.truncate(k.min(seen.len()));
+                        self.txs[j].seen.clear();
                     }
-                } else {
-                    // nothing of the new transmission is understood by anybody
-                    seen.clear();
                 }
             }
         }
